@@ -981,6 +981,39 @@ func (w *liqWorld) opUnfarm(a *sim.Acct, andWithdraw bool) {
 		amt, cls = sdkmath.NewInt(1000), "nothing-farmed"
 	}
 	shape := fmt.Sprintf("%s/active=%v/queued=%v", cls, act.IsPositive(), q.IsPositive())
+	if total.IsPositive() && w.rnd.Intn(100) < 12 {
+		// hostile: the sender farms in this pool but names the pool coin of ANOTHER pool (another app's pool with the same
+		// number if there is one, else any other pool) that other farmers have put into the module account
+		var alt []liqtypes.Pool
+		for _, app := range w.apps {
+			for _, o := range w.c.App.LiquidityKeeper.GetAllPools(w.ctx(), app) {
+				if o.PoolCoinDenom != pool.PoolCoinDenom {
+					alt = append(alt, o)
+				}
+			}
+		}
+		if len(alt) > 0 {
+			o := alt[w.rnd.Intn(len(alt))]
+			for _, x := range alt {
+				if x.Id == pool.Id && x.AppId != pool.AppId {
+					o = x
+				}
+			}
+			rel := "other-pool"
+			if o.Id == pool.Id {
+				rel = "other-app-same-pool-number"
+			}
+			op := "unfarm-foreign-coin"
+			var msg sdk.Msg = liqtypes.NewMsgUnfarm(pool.AppId, pool.Id, a.Addr, sdk.NewCoin(o.PoolCoinDenom, amt))
+			if andWithdraw {
+				op, msg = "unfarm-and-withdraw-foreign-coin", liqtypes.NewMsgUnfarmAndWithdraw(pool.AppId, pool.Id, a.Addr, sdk.NewCoin(o.PoolCoinDenom, amt))
+			}
+			st := w.deliver(a, op, msg, fmt.Sprintf("app=%d pool=%d names %s%s (%s, %s)", pool.AppId, pool.Id, amt, o.PoolCoinDenom, rel, cls))
+			w.rec.Distinct(op, rel, cls, st.OK)
+			w.rec.Count("unfarm_naming_a_foreign_pool_coin_"+rel, 1)
+			return
+		}
+	}
 	if andWithdraw {
 		st := w.deliver(a, "unfarm-and-withdraw", liqtypes.NewMsgUnfarmAndWithdraw(pool.AppId, pool.Id, a.Addr, sdk.NewCoin(pool.PoolCoinDenom, amt)), fmt.Sprintf("app=%d pool=%d poolcoin=%s (%s; active=%s queued=%s)", pool.AppId, pool.Id, amt, cls, act, q))
 		w.rec.Distinct("unfarm-and-withdraw", pool.AppId, pool.Id, shape, st.OK)
